@@ -180,7 +180,7 @@ GROUPS += [
     },
     # ------------------------------------------------------------------ C01 / C03 receive step
     {
-        "id": "C01.complete", "property": ["C01", "C03", "C06"], "crate": "core", "harnesses": ["c01_complete_probe_awaited"],
+        "id": "C01.complete", "property": ["C01", "C03", "C06", "C08"], "crate": "core", "harnesses": ["c01_complete_probe_awaited"],
         "jobs": 3, "timeout_s": 900, "mem_gb": 12, "functions": STATE_FNS,
         "bounds": "complete_probe on an Awaited slot at window positions {(0,2,0),(33434,9,7),(65022,512,510)} (round_sequence, "
                   "size, slot), arbitrary derived response (extensions: None or empty list), unwind 2",
